@@ -147,7 +147,8 @@ impl ShapeWorld {
                     let dt = chrono::DateTime::<chrono::Utc>::from_timestamp(secs, 0).expect("valid time");
                     objects.push(ListedObject {
                         key: format!("{}/{}/{}", self.site, d, name),
-                        last_modified: dt.format("%Y-%m-%dT%H:%M:%S.000Z").to_string(),
+                        // equivalent spellings of the instant (Z, +00:00, numeric offsets that differ between directories)
+                        last_modified: crate::s3sim::spell_instant(dt, (self.shape.content_mode / 3 + self.shape.time_mode) as u8, d as u64),
                         size: "1234".into(),
                     });
                 }
